@@ -92,11 +92,21 @@ def audit_sources():
 
 
 def build_coq():
-    if not os.path.exists(os.path.join(COQ, 'Makefile.coq')):
-        rc, out = sh(['coq_makefile', '-f', '_CoqProject', '-o', 'Makefile.coq'], cwd=COQ)
-        if rc != 0:
-            return False, out
-    rc, out = sh(['make', '-f', 'Makefile.coq', '-j16'], cwd=COQ, timeout=3000)
+    with runner.lock('coq-build'):      # one `make` at a time; a second check finds everything up to date
+        if not os.path.exists(os.path.join(COQ, 'Makefile.coq')):
+            rc, out = sh(['coq_makefile', '-f', '_CoqProject', '-o', 'Makefile.coq'], cwd=COQ)
+            if rc != 0:
+                return False, out
+        rc, out = sh(['make', '-f', 'Makefile.coq', '-j16'], cwd=COQ, timeout=3000)
+        if rc == 0:
+            # the evaluator the correspondence runs is the extraction of the model just checked
+            oc = os.path.join(VERIF, 'ocaml')
+            srcs = [os.path.join(oc, f) for f in ('model.mli', 'model.ml', 'driver.ml')]
+            if all(os.path.exists(f) for f in srcs) and (not os.path.exists(runner.MODEL_DRIVER)
+                    or os.path.getmtime(runner.MODEL_DRIVER) < max(os.path.getmtime(f) for f in srcs)):
+                rc2, out2 = sh(['ocamlfind', 'ocamlopt', '-O2', '-w', '-a', '-package', 'str', 'model.mli', 'model.ml', 'driver.ml', '-o', 'model_driver'], cwd=oc, timeout=1800)
+                if rc2 != 0:
+                    raise runner.Infra('the extracted model does not build: ' + out2[-1500:])
     return rc == 0, out
 
 
@@ -113,7 +123,14 @@ def audit_property(prop):
     res['theorems'] = theorems
     res['examples'] = examples
     res['obligations'] = len(theorems)
-    rc, out = sh(['coqc', '-Q', '.', 'DW', 'Props/%s.v' % prop], cwd=COQ, timeout=1800)
+    # compile to a private output file: checks of different properties may run side by side and must not rewrite shared .vo files
+    import shutil
+    import tempfile
+    tmpd = tempfile.mkdtemp(prefix='dwcoq-', dir=runner.SCRATCH_ROOT)
+    try:
+        rc, out = sh(['coqc', '-noglob', '-Q', '.', 'DW', '-o', os.path.join(tmpd, prop + '.vo'), 'Props/%s.v' % prop], cwd=COQ, timeout=1800)
+    finally:
+        shutil.rmtree(tmpd, ignore_errors=True)
     if rc != 0:
         res['failures'].append('Props/%s.v does not compile: %s' % (prop, out[-1500:]))
         return res
@@ -205,20 +222,28 @@ def impl_observations(cases, cfgs):
     rh = runner.repo_hash()
     hh = runner.harness_hash()
     ch = hashlib.sha256('\n'.join(cid + '\t' + item_txt(it) for cid, it in cases).encode()).hexdigest()
-    out, todo = {}, {}
-    for c in cfgs:
-        key = hashlib.sha256(('impl|%s|%s|%s|%s' % (rh, hh, ch, c)).encode()).hexdigest()[:32]
-        got = cache_get(key)
-        if got is None:
-            todo[c] = key
-        else:
-            out[c] = got
+    def load():
+        out, todo = {}, {}
+        for c in cfgs:
+            key = hashlib.sha256(('impl|%s|%s|%s|%s' % (rh, hh, ch, c)).encode()).hexdigest()[:32]
+            got = cache_get(key)
+            if got is None:
+                todo[c] = key
+            else:
+                out[c] = got
+        return out, todo
+    out, todo = load()
+    built = []
     if todo:
-        res = runner.run_impl({c: cases for c in todo})
-        for c, key in todo.items():
-            cache_put(key, res[c])
-            out[c] = res[c]
-    return out, dict(repo_hash=rh, cached=[c for c in cfgs if c not in todo], built=list(todo))
+        with runner.lock('impl-' + rh[:16] + ch[:16]):
+            out, todo = load()          # a check running side by side may have built it meanwhile
+            if todo:
+                res = runner.run_impl({c: cases for c in todo})
+                for c, key in todo.items():
+                    cache_put(key, res[c])
+                    out[c] = res[c]
+                built = list(todo)
+    return out, dict(repo_hash=rh, cached=[c for c in cfgs if c not in built], built=built)
 
 
 def model_observations(cases, cfgs):
@@ -230,18 +255,24 @@ def model_observations(cases, cfgs):
         h.update(cid.encode())
         h.update(sx_item(it).encode())
     ch = h.hexdigest()[:24]
-    out, todo = {}, []
-    for c in cfgs:
-        got = cache_get('model-%s-%s' % (c, ch))
-        if got is None:
-            todo.append(c)
-        else:
-            out[c] = got
+    def load():
+        out, todo = {}, []
+        for c in cfgs:
+            got = cache_get('model-%s-%s' % (c, ch))
+            if got is None:
+                todo.append(c)
+            else:
+                out[c] = got
+        return out, todo
+    out, todo = load()
     if todo:
-        res = runner.run_model({c: cases for c in todo})
-        for c in todo:
-            cache_put('model-%s-%s' % (c, ch), res[c])
-            out[c] = res[c]
+        with runner.lock('model-' + ch):
+            out, todo = load()
+            if todo:
+                res = runner.run_model({c: cases for c in todo})
+                for c in todo:
+                    cache_put('model-%s-%s' % (c, ch), res[c])
+                    out[c] = res[c]
     return out
 
 
@@ -715,7 +746,7 @@ def cleanup_stale_scratch(max_age_s=3 * 3600):
     root = runner.SCRATCH_ROOT
     try:
         for n in os.listdir(root):
-            if n.startswith(('dwverif-', 'dwprobe-', 'dwdiag-', 'dwsolver-', 'dwnostd-', 'dwcrateopt-', 'dwmut-')):
+            if n.startswith(('dwcoq-', 'dwverif-', 'dwprobe-', 'dwdiag-', 'dwsolver-', 'dwnostd-', 'dwcrateopt-', 'dwmut-')):
                 p = os.path.join(root, n)
                 if os.path.isdir(p) and time.time() - os.path.getmtime(p) > max_age_s:
                     shutil.rmtree(p, ignore_errors=True)
